@@ -158,6 +158,9 @@ class PathInfo:
                     out.append((op, args[1], args[0]))
                 else:
                     out.append(("call", nm, args, truth))
+            elif ds[0] != "const":
+                # a plain boolean (flag field, parameter, local): the test of the value itself
+                out.append(("is", canon(ds), None, truth))
         out.extend(emptiness_facts(out))
         return out
 
@@ -230,6 +233,8 @@ def predicate_table(P, b):
         for f in pi.cmp_facts():
             if f[0] == "call":
                 facts.append(("%s(%s)" % (f[1], ", ".join(f[2])), f[3]))
+            elif f[0] == "is":
+                facts.append((f[1], f[3]))
             elif f[1] <= f[2]:
                 facts.append(("%s(%s, %s)" % (f[0], f[1], f[2]), True))
         for d in pi.decisions():
@@ -249,6 +254,8 @@ def path_facts(pi):
     for f in pi.cmp_facts():
         if f[0] == "call":
             facts.append(("%s(%s)" % (f[1], ", ".join(f[2])), f[3]))
+        elif f[0] == "is":
+            facts.append((f[1], f[3]))
         elif f[1] <= f[2]:
             facts.append(("%s(%s, %s)" % (f[0], f[1], f[2]), True))
     for d in pi.decisions():
